@@ -100,18 +100,56 @@ class Driver:
                 raise Crash(cmd, rc, self._readlog())
             self.buf += chunk
 
-    def cmd(self, line, timeout=None):
+    # What a driver remembers between commands: commands that start a fresh session ('reset'), commands whose last occurrence stays in force
+    # ('sticky').  Needed for one thing only: a process killed from OUTSIDE (SIGKILL - a program never sends that to itself; here it is the
+    # kernel's OOM killer when other jobs fill the machine) is restarted, the session replayed, and the command repeated once.
+    SESSION = {'p21drv': {'reset': ('new',)}, 'lazydrv': {'reset': ('open',)}, 'cxdrv': {'reset': ('C',)}, 'dictdump': {'reset': ('entities', 'types', 'instance')},
+               'attrdrv': {'sticky': ('S', 'E'), 'reset': ('B',)}}
+
+    def _remember(self, line):
+        conf = self.SESSION.get(os.path.basename(self.exe).split('-')[0])
+        if conf is None:
+            self.hist = None
+            return
+        if getattr(self, 'hist', None) is None:
+            self.hist = []
+        w = line.split(' ', 1)[0]
+        if w in conf.get('reset', ()):
+            self.hist = [h for h in self.hist if h.split(' ', 1)[0] in conf.get('sticky', ())]
+        if w in conf.get('sticky', ()):
+            self.hist = [h for h in self.hist if h.split(' ', 1)[0] != w]
+        self.hist.append(line)
+        if len(self.hist) > 400:
+            self.hist = None        # too long to replay: an outside kill is then reported like any other death
+
+    def cmd(self, line, timeout=None, _retry=True):
         if self.p is None:
             self.start()
+            if getattr(self, 'hist', None):
+                # a new process after kill()/recycle: the callers re-establish their session themselves
+                self.hist = []
         self.ncmd += 1
+        self._remember(line)
         try:
-            self.p.stdin.write(line.encode('latin1') + b'\n')
-            self.p.stdin.flush()
-        except (BrokenPipeError, OSError):
-            rc = self.p.wait()
-            self.p = None
-            raise Crash(line, rc, self._readlog())
-        return self._read_answer(line, timeout)
+            try:
+                self.p.stdin.write(line.encode('latin1') + b'\n')
+                self.p.stdin.flush()
+            except (BrokenPipeError, OSError):
+                rc = self.p.wait()
+                self.p = None
+                raise Crash(line, rc, self._readlog())
+            return self._read_answer(line, timeout)
+        except Crash as e:
+            if _retry and e.rc == -9 and not e.hang and getattr(self, 'hist', None) and common.sanitizer_key(e.log) is None:
+                hist = list(self.hist)
+                self.kill()
+                self.start()
+                self.hist = []
+                for h in hist[:-1]:
+                    self.cmd(h, timeout=max(timeout or 0, self.timeout), _retry=False)
+                self.outside_kills = getattr(self, 'outside_kills', 0) + 1
+                return self.cmd(line, timeout=timeout, _retry=False)
+            raise
 
     def rss_kb(self):
         try:
